@@ -63,6 +63,15 @@ def view_corpus():
             es = [es for s_, es in m['sections'] if s_[0] == sec][0]
             es.append({'key': ('sp', 'Cu-b'), 'val': 'as.constant 1.5', 'sp': 0})
         out.append({'model': m, 'views': [[mode, S]], 'ops': [['create', 0], ['read', 0]]})
+    # labels are compared literally: 'O*', 'Al[b]' and 'U?' are species of their own, not patterns
+    for k, (mode, S) in enumerate([('include', ['U', 'O*']), ('exclude', ['Al[b]']), ('include', ['U?']), ('exclude', ['O*'])]):
+        m = sc.gen_model(random.Random(1370 + k), kind='pair')
+        ps = [es for s_, es in m['sections'] if s_[0] == 'Pair'][0]
+        del ps[:]
+        for a, b in [('U', 'U'), ('U', 'O'), ('O', 'O'), ('U', 'O*'), ('O*', 'O*'), ('Alb', 'Alb'), ('Al[b]', 'U'), ('U?', 'UO'), ('UO', 'UO')]:
+            ps.append({'key': ('pair', a, b), 'val': 'as.constant 1.0', 'sp': 0})
+        m['els'] = ['U', 'O', 'O*', 'Alb', 'Al[b]', 'U?', 'UO']
+        out.append({'model': m, 'views': [[mode, S]], 'ops': [['create', 0], ['read', 0]]})
     return out
 
 def which_prop(m):
